@@ -111,6 +111,10 @@ func (h *H) payeeMin(games bool, noBinding bool, walletPct int, minFrozen int) [
 		ai := all[h.R.Intn(len(all))]
 		if games && h.R.Chance(h.px().opt.Games) {
 			if noBinding || h.R.Chance(50) {
+				if h.R.Chance(10) { // see frozenPeriod
+					big := []uint64{1474560, 1474561, 2949120, 0xfffffffe}
+					return h.scriptStaking(ai, big[h.R.Intn(len(big))])
+				}
 				return h.scriptStaking(ai, uint64(minFrozen+h.R.Intn(5)))
 			}
 			// consensus admits 20-byte targets below the MASSIP0002 warm-up height and 22-byte targets from it on
@@ -831,6 +835,7 @@ func (h *H) withdrawals(wi *WInfo, o sim.Obs) {
 		return
 	}
 	to := wi.Addrs[0].Addr
+	var okDeps []dep
 	for _, u := range o.Utxos {
 		hs, err := wire.NewHashFromStr(u.TxID)
 		if err != nil {
@@ -861,7 +866,95 @@ func (h *H) withdrawals(wi *WInfo, o sim.Obs) {
 		}
 		h.W.WM.ClearUsedUTXOMark(tx)
 		h.emit("W %d %d %d %d ok %d", wi.Num, h.TxID[*hs], u.Vout, lock, tx.TxIn[0].Sequence)
+		okDeps = append(okDeps, dep{u.TxID, u.Vout, h.TxID[*hs], u.Amount})
 	}
+	// several deposits withdrawn by ONE transaction (all deposits of one transaction first, then random groups):
+	// every input must carry the sequence its own lock requires, whatever the other inputs are
+	// (one W line per input, judged like the single withdrawals)
+	byTx := map[string][]dep{}
+	var order []string
+	for _, d := range okDeps {
+		if _, ok := byTx[d.txid]; !ok {
+			order = append(order, d.txid)
+		}
+		byTx[d.txid] = append(byTx[d.txid], d)
+	}
+	var groups [][]dep
+	for _, t := range order {
+		if len(byTx[t]) >= 2 {
+			groups = append(groups, byTx[t])
+		}
+	}
+	if len(okDeps) >= 2 {
+		for k := 0; k < 2; k++ {
+			n := 2 + h.R.Intn(2)
+			if n > len(okDeps) {
+				n = len(okDeps)
+			}
+			perm := make([]int, len(okDeps)) // Fisher-Yates from the history's own PRNG
+			for i := range perm {
+				perm[i] = i
+			}
+			for i := len(perm) - 1; i > 0; i-- {
+				j := h.R.Intn(i + 1)
+				perm[i], perm[j] = perm[j], perm[i]
+			}
+			var g []dep
+			for _, i := range perm[:n] {
+				g = append(g, okDeps[i])
+			}
+			groups = append(groups, g)
+		}
+	}
+	for _, g := range groups {
+		var ins []*masswallet.TxIn
+		total := int64(0)
+		for _, d := range g {
+			ins = append(ins, &masswallet.TxIn{TxId: d.txid, Vout: d.vout})
+			total += d.amount
+		}
+		amt, err := massutil.NewAmountFromInt(total)
+		if err != nil {
+			continue
+		}
+		lock := uint64(0)
+		if h.R.Chance(30) {
+			lock = uint64(1 + h.R.Intn(5))
+		}
+		hx, _, err := h.W.WM.CreateRawTransaction(ins, map[string]massutil.Amount{to: amt}, lock, to, map[string]struct{}{to: {}})
+		if err != nil {
+			for _, d := range g {
+				h.emit("W %d %d %d %d err 0", wi.Num, d.tid, d.vout, lock)
+			}
+			continue
+		}
+		tx := decodeTxHex(hx)
+		if tx == nil || len(tx.TxIn) != len(g) {
+			for _, d := range g {
+				h.emit("W %d %d %d %d undecodable 0", wi.Num, d.tid, d.vout, lock)
+			}
+			continue
+		}
+		h.W.WM.ClearUsedUTXOMark(tx)
+		for i, d := range g {
+			// inputs are built in request order; match by outpoint to be safe
+			seq := tx.TxIn[i].Sequence
+			for _, ti := range tx.TxIn {
+				if ti.PreviousOutPoint.Hash.String() == d.txid && ti.PreviousOutPoint.Index == d.vout {
+					seq = ti.Sequence
+				}
+			}
+			h.emit("W %d %d %d %d ok %d", wi.Num, d.tid, d.vout, lock, seq)
+		}
+		h.px().nU["multi_withdrawals"]++
+	}
+}
+
+type dep struct {
+	txid   string
+	vout   uint32
+	tid    int
+	amount int64
 }
 
 // LivePool is the exported view of livePool.
